@@ -134,7 +134,10 @@ def correspond(ck: Check, n: int):
     for (p, r, (lo, hi)), out in zip(expect, run_driver(reqs)):
         ck.case(("bbox", p, r))
         parts = out.split()
-        if parts[0] != "ok" or not (rel_close(bits_to_float(parts[1]), lo, 1e-15) and rel_close(bits_to_float(parts[2]), hi, 1e-15)):
+        # the implementation builds the box from (p - r, 2r): its upper bound (p - r) + 2r carries the rounding of the
+        # operands' magnitude, not of the (possibly much smaller) result
+        atol = 8e-16 * (abs(p) + abs(r))
+        if parts[0] != "ok" or not (rel_close(bits_to_float(parts[1]), lo, 1e-15, atol) and rel_close(bits_to_float(parts[2]), hi, 1e-15, atol)):
             ck.mismatch("c12-formulas", f"bbox(p={p}, r={r}): impl {(lo, hi)} vs model {out}", {"fn": "droplet_bbox", "p": p, "r": r})
     ck.sample({"request": reqs[0], "impl_bbox_axis0": list(expect[0][2])})
 
